@@ -147,7 +147,8 @@ PROPS = {
         'explanation': 'last-assignment lookup, find_assignment, find_assignment_index and reassign (exactly one '
                        'assignment of the symbol remains, it is the new one, nothing in front of the first old one '
                        'moves) proved for all statement lists, and the split of the list at the '
-                       'first ODE system (_get_ode_system_index, ode_system, before_odes, after_odes, error); dependency '
+                       'first ODE system (_get_ode_system_index, ode_system, before_odes, after_odes, error) and the edge set of '
+                       '_create_dependency_graph; dependency '
                        'analyses and the order kept by reassign bounded',
     },
     'C19': {
